@@ -1,12 +1,19 @@
 //! C02 — level gating through the REAL global plumbing of the `log` facade.
-//! case: ( (cfg ...) ((target level) ...) )
-//!       cfg = ( (appname ...) (rootlevel (appname ...)) ((name level additive (appname ...)) ...) )
-//! The first cfg is installed with `log4rs::init_config` (global logger, once per
+//! case: ( (step ...) ((target level) ...) )
+//!       step = ( (appname ...) (rootlevel (appname ...)) ((name level additive (appname ...)) ...)
+//!                tweak dropprobe )
+//!       tweak     = () | (level): after `build()`, `config.root_mut().set_level(level)` (the only
+//!                   post-build mutator of the public API) before the config is installed
+//!       dropprobe = () | (target level): appender 0 of this step's config logs this record through
+//!                   `log!` from its `Drop` — that runs inside the NEXT step's `set_config`, when the
+//!                   previous SharedLogger is released (same-thread re-entrancy)
+//! The first step is installed with `log4rs::init_config` (global logger, once per
 //! process), every further one with `handle.set_config`.  After EVERY step:
 //!   log::max_level(), Logger::max_log_level() of a logger built from the same cfg,
 //!   and per probe: log::logger().enabled(..), log_enabled!(target: ..), and the
 //!   appenders reached by log!(target: .., level, ..).
-//! result: per step ( global_max reported_max ( (logger_enabled macro_enabled (idx ...)) ... ) );
+//! result: per step ( global_max reported_max ( (logger_enabled macro_enabled (idx ...)) ... ) drop );
+//!         drop = () | ((idx ...)) what the previous step's drop probe reached;
 //!         ("err" 1) when a cfg does not build, ("err" 2) when the global logger was
 //!         already installed in this process.
 //!
@@ -16,16 +23,59 @@
 use log4rs::config::{Appender, Config, Logger, Root};
 use std::io::{BufRead, Write};
 use std::process::{Command, Stdio};
+use std::sync::{Arc, Mutex};
 use vh::util::*;
 use vh::val::{self, Val};
 
-fn build_config(c: &Val, rec: &Rec) -> Option<Config> {
+type DropLog = Arc<Mutex<Vec<Vec<Val>>>>;
+
+/// Records each `append` as its index; when it carries a probe it logs that probe
+/// through the `log!` macro from its `Drop` and notes which appenders the probe reached.
+#[derive(Debug)]
+struct ProbeAppender {
+    idx: usize,
+    rec: Rec,
+    probe: Option<(String, log::Level)>,
+    drops: DropLog,
+}
+
+impl log4rs::append::Append for ProbeAppender {
+    fn append(&self, _record: &log::Record) -> anyhow::Result<()> {
+        self.rec.lock().unwrap().push(Val::N(self.idx as u128));
+        Ok(())
+    }
+    fn flush(&self) {}
+}
+
+impl Drop for ProbeAppender {
+    fn drop(&mut self) {
+        if let Some((target, lvl)) = self.probe.take() {
+            let before = self.rec.lock().unwrap().len();
+            log::log!(target: &target, lvl, "drop-probe");
+            let got: Vec<Val> = self.rec.lock().unwrap()[before..].to_vec();
+            self.drops.lock().unwrap().push(got);
+        }
+    }
+}
+
+/// `with_probe`: None = plain recording appenders (for the not-installed twin logger).
+fn build_config(c: &Val, rec: &Rec, drops: Option<&DropLog>) -> Option<Config> {
     let c = c.l();
+    let probe = match (drops, c.get(4)) {
+        (Some(_), Some(p)) if p.l().len() == 2 => Some((p.l()[0].str(), level(p.l()[1].n()))),
+        _ => None,
+    };
+    let dl: DropLog = drops.cloned().unwrap_or_else(|| Arc::new(Mutex::new(vec![])));
     let mut builder = Config::builder();
     for (i, a) in c[0].l().iter().enumerate() {
         builder = builder.appender(Appender::builder().build(
             a.str(),
-            Box::new(RecAppender { idx: i, fails: false, rec: rec.clone() }),
+            Box::new(ProbeAppender {
+                idx: i,
+                rec: rec.clone(),
+                probe: if i == 0 { probe.clone() } else { None },
+                drops: dl.clone(),
+            }),
         ));
     }
     for lg in c[2].l() {
@@ -41,7 +91,14 @@ fn build_config(c: &Val, rec: &Rec) -> Option<Config> {
     for a in r[1].l() {
         root = root.appender(a.str());
     }
-    builder.build(root.build(level_filter(r[0].n()))).ok()
+    let mut config = builder.build(root.build(level_filter(r[0].n()))).ok()?;
+    // post-build mutation through the public API
+    if let Some(t) = c.get(3) {
+        if let Some(l) = t.l().first() {
+            config.root_mut().set_level(level_filter(l.n()));
+        }
+    }
+    Some(config)
 }
 
 fn run(case: &Val) -> Val {
@@ -49,18 +106,20 @@ fn run(case: &Val) -> Val {
     let probes = c[1].l();
     let rec = new_rec();
     let sink = new_rec();
+    let drops: DropLog = Arc::new(Mutex::new(vec![]));
     let mut handle: Option<log4rs::Handle> = None;
     let mut out = vec![];
     for cfg in c[0].l() {
-        let config = match build_config(cfg, &rec) {
+        let config = match build_config(cfg, &rec, Some(&drops)) {
             Some(c) => c,
             None => return Val::err(1),
         };
         // what the logger itself reports for this configuration (not installed)
-        let reported = match build_config(cfg, &sink) {
+        let reported = match build_config(cfg, &sink, None) {
             Some(c) => level_filter_n(log4rs::Logger::new(c).max_log_level()),
             None => return Val::err(1),
         };
+        drops.lock().unwrap().clear();
         match &handle {
             None => match log4rs::init_config(config) {
                 Ok(h) => handle = Some(h),
@@ -68,6 +127,8 @@ fn run(case: &Val) -> Val {
             },
             Some(h) => h.set_config(config),
         }
+        // drop probes of the previous configuration ran inside set_config
+        let dropped = Val::L(drops.lock().unwrap().iter().map(|d| Val::L(d.clone())).collect());
         let gmax = level_filter_n(log::max_level());
         let mut obs = vec![];
         for p in probes {
@@ -79,13 +140,9 @@ fn run(case: &Val) -> Val {
             rec.lock().unwrap().clear();
             log::log!(target: &target, lvl, "m");
             let ev = rec.lock().unwrap();
-            obs.push(Val::L(vec![
-                Val::bool(le),
-                Val::bool(me),
-                Val::L(ev.iter().map(|e| e.l()[1].clone()).collect()),
-            ]));
+            obs.push(Val::L(vec![Val::bool(le), Val::bool(me), Val::L(ev.clone())]));
         }
-        out.push(Val::L(vec![Val::N(gmax), Val::N(reported), Val::L(obs)]));
+        out.push(Val::L(vec![Val::N(gmax), Val::N(reported), Val::L(obs), dropped]));
     }
     Val::L(out)
 }
